@@ -16,6 +16,8 @@
 -/
 import ICG.Lemmas.Search
 import ICG.Lemmas.BestStates
+import Mathlib.Algebra.Order.Field.Rat
+import Mathlib.Algebra.Order.Ring.Rat
 
 namespace ICG.C11
 open ICG ICG.Search Table
@@ -32,7 +34,7 @@ def bound (unknown : List β) : Option Nat → Nat
 /-- nothing else occurs: an enumerated sequence is a sub-list of the unknown coalitions of length ≤ k -/
 theorem enum_mem (unknown : List β) (k : Option Nat) (s : List β) :
     s ∈ possibleSeqs unknown k ↔ s.Sublist unknown ∧ s.length ≤ bound unknown k := by
-  cases k <;> simp only [possibleSeqs, bound, List.mem_flatMap, List.mem_range, mem_combos] <;> constructor
+  cases k <;> simp only [possibleSeqs, bound, List.mem_flatMap, List.mem_range, mem_combos_iff] <;> constructor
   · rintro ⟨i, hi, hs, hl⟩; exact ⟨hs, by omega⟩
   · rintro ⟨hs, hl⟩; exact ⟨s.length, by omega, hs, rfl⟩
   · rintro ⟨i, hi, hs, hl⟩; exact ⟨hs, by omega⟩
@@ -42,10 +44,10 @@ theorem enum_mem (unknown : List β) (k : Option Nat) (s : List β) :
 theorem enum_nodup (unknown : List β) (h : unknown.Nodup) (k : Option Nat) : (possibleSeqs unknown k).Nodup := by
   simp only [possibleSeqs]
   rw [List.nodup_flatMap]
-  refine ⟨fun i _ => combos_nodup h, ?_⟩
+  refine ⟨fun i _ => nodup_combos h, ?_⟩
   refine List.Pairwise.imp ?_ (List.nodup_range (n := _))
   intro i j hij
-  simp only [Function.onFun, List.disjoint_left, mem_combos]
+  simp only [Function.onFun, List.disjoint_left, mem_combos_iff]
   rintro s ⟨_, h1⟩ ⟨_, h2⟩
   exact hij (h1.symm.trans h2)
 
@@ -62,13 +64,13 @@ theorem enum [DecidableEq β] (unknown : List β) (h : unknown.Nodup) (k : Optio
     refine ⟨fun i _ => ?_, ?_⟩
     · apply List.pairwise_of_forall_mem_list
       intro a ha b hb
-      simp only [List.mem_map, mem_combos] at ha hb
+      simp only [List.mem_map, mem_combos_iff] at ha hb
       obtain ⟨_, ⟨_, h1⟩, rfl⟩ := ha
       obtain ⟨_, ⟨_, h2⟩, rfl⟩ := hb
       omega
     · refine List.Pairwise.imp ?_ (List.pairwise_lt_range (n := _))
       intro i j hij x hx y hy
-      simp only [List.mem_map, mem_combos] at hx hy
+      simp only [List.mem_map, mem_combos_iff] at hx hy
       obtain ⟨_, ⟨_, h1⟩, rfl⟩ := hx
       obtain ⟨_, ⟨_, h2⟩, rfl⟩ := hy
       omega
@@ -349,6 +351,14 @@ theorem ext_of_monotone (unknown : List Nat) (k : Option Nat) (colOf : List Nat 
 /-- non-vacuity: three sets of size 1, the first minimiser wins the tie; size 2 has no candidate. -/
 example : bestStates (α := Rat) 2 2 [([], [5, 7]), ([3], [4, 2]), ([5], [1, 3]), ([6], [2, 2])] =
     .ok [([5, 7], []), ([1, 3], [5]), ([-1, -1], [])] := by decide +kernel
+
+/-- the theorem is about exactly the function the driver runs: it specialises (by unification alone) to
+    `bestStates` instantiated with core `Rat`'s own instances -/
+example (cands : List (List Nat × List Rat)) (h : ∀ p ∈ cands, p.1.length ≤ 2) :
+    ∃ b, @bestStates Rat Rat.instAdd ⟨0⟩ ⟨1⟩ Rat.instNeg Rat.instDiv Rat.instNatCast inferInstance Rat.instLT
+      inferInstance 2 2 cands = .ok b ∧ b.length = 3 := by
+  obtain ⟨b, hb, hl, _⟩ := best_min (α := Rat) 2 2 (by decide) cands h
+  exact ⟨b, hb, hl⟩
 
 end best
 
